@@ -16,6 +16,7 @@ from typing import Dict, List, Optional, Set, Tuple
 
 from sa.cfg import CFG
 from sa.model import AnalysisError, Class, Function, Repo, calls_in, const_str, dotted, norm, own_nodes, parent
+from sa.match import Locals, canon_compare, conjuncts, match
 from sa.report import Report
 
 TRANSPORT = "core.http_transport"
@@ -255,14 +256,40 @@ def run(repo: Repo, rep: Report, tier: str) -> None:
             ddefs = [n for n in own_nodes(req.node) if isinstance(n, (ast.Assign, ast.AnnAssign)) and isinstance(
                 (n.targets[0] if isinstance(n, ast.Assign) else n.target), ast.Name) and (n.targets[0] if isinstance(n, ast.Assign) else n.target).id == dv]  # type: ignore[union-attr]
             okc = False
+            popped_headers = False
             why = f"`{dv}` is not built by a comprehension over {kwname}.items()"
+
+            def _key_exclusions(test: ast.AST, kvar: str) -> Optional[Set[str]]:
+                """keys a keep-filter drops, when every conjunct is a pure key exclusion (`k != 'x'`, `k not in ('x',)`, `not k == 'x'`); None otherwise"""
+                out: Set[str] = set()
+                for cj in conjuncts(test):
+                    neg = False
+                    while isinstance(cj, ast.UnaryOp) and isinstance(cj.op, ast.Not):
+                        cj, neg = cj.operand, not neg
+                    cj = canon_compare(cj)
+                    if not (isinstance(cj, ast.Compare) and len(cj.ops) == 1 and isinstance(cj.left, ast.Name) and cj.left.id == kvar):
+                        return None
+                    op, rhs = cj.ops[0], cj.comparators[0]
+                    if (isinstance(op, ast.NotEq) and not neg) or (isinstance(op, ast.Eq) and neg):
+                        if const_str(rhs) is None:
+                            return None
+                        out.add(const_str(rhs) or "")
+                    elif (isinstance(op, ast.NotIn) and not neg) or (isinstance(op, ast.In) and neg):
+                        if not isinstance(rhs, (ast.Tuple, ast.List, ast.Set)) or not all(const_str(e) is not None for e in rhs.elts):
+                            return None
+                        out |= {const_str(e) or "" for e in rhs.elts}
+                    else:
+                        return None
+                return out
+
             if len(ddefs) == 1 and isinstance(ddefs[0].value, ast.DictComp):
                 dc = ddefs[0].value
                 g = dc.generators[0]
                 it_ok = norm(g.iter) == f"{kwname}.items()" and len(dc.generators) == 1
                 kv_ok = isinstance(g.target, ast.Tuple) and len(g.target.elts) == 2 and norm(dc.key) == norm(g.target.elts[0]) and norm(dc.value) == norm(g.target.elts[1])
-                flt_ok = len(g.ifs) == 1 and isinstance(g.ifs[0], ast.Compare) and isinstance(g.ifs[0].ops[0], ast.NotEq) \
-                    and const_str(g.ifs[0].comparators[0]) == "headers" and norm(g.ifs[0].left) == norm(dc.key)
+                excl = _key_exclusions(g.ifs[0], norm(dc.key)) if len(g.ifs) == 1 else (set() if not g.ifs else None)
+                flt_ok = excl is not None and excl <= {"headers"}
+                popped_headers = excl == {"headers"}
                 okc = it_ok and kv_ok and flt_ok
                 why = f"`{norm(dc)}`"
             elif len(ddefs) == 1 and norm(ddefs[0].value) in (f"dict({kwname})", f"{kwname}.copy()", f"{{**{kwname}}}"):
@@ -270,7 +297,7 @@ def run(repo: Repo, rep: Report, tier: str) -> None:
             if okc:
                 rep.ok("R17.3", sub3 + " kwargs copy", f"every caller kwarg except 'headers' is forwarded unchanged: {why}", req.loc(ddefs[0]))
             else:
-                rep.violation("R17.3", sub3 + " kwargs copy", f"{req.fq}|kwargs-copy|{norm(ddefs[0].value) if ddefs else ''}",
+                rep.violation("R17.3", sub3 + " kwargs copy", f"{req.fq}|kwargs-copy",
                               f"the forwarded argument dict filters or rewrites caller arguments: {why}", req.loc(ddefs[0] if ddefs else req.node))
             # later edits of the dict: only ["headers"] = <prepared>
             for n in own_nodes(req.node):
@@ -282,6 +309,9 @@ def run(repo: Repo, rep: Report, tier: str) -> None:
                             else:
                                 rep.violation("R17.3", sub3 + " extra write", f"{req.fq}|extra-write|{norm(t)}",
                                               f"`{norm(n)}` overrides a caller argument", req.loc(n))
+                if isinstance(n, ast.Call) and isinstance(n.func, ast.Attribute) and isinstance(n.func.value, ast.Name) and n.func.value.id == dv \
+                        and n.func.attr == "pop" and n.args and const_str(n.args[0]) == "headers":
+                    continue  # the headers slot is replaced by the prepared headers anyway
                 if isinstance(n, ast.Call) and isinstance(n.func, ast.Attribute) and isinstance(n.func.value, ast.Name) and n.func.value.id == dv \
                         and n.func.attr in ("pop", "clear", "popitem", "update", "setdefault"):
                     rep.violation("R17.3", sub3 + " extra mutation", f"{req.fq}|mutation|{norm(n)}", f"`{norm(n)}` changes what the caller passed", req.loc(n))
@@ -305,8 +335,11 @@ def run(repo: Repo, rep: Report, tier: str) -> None:
     if len(loops) == 1:
         lp = loops[0]
         it_ok = norm(lp.iter) == "self.plugins"
-        body_ok = len(lp.body) == 1 and isinstance(lp.body[0], ast.Assign) and isinstance(lp.body[0].targets[0], ast.Name) \
-            and lp.body[0].targets[0].id == p
+        body_ok = len(lp.body) == 1 and isinstance(lp.body[0], ast.Assign) and isinstance(lp.body[0].targets[0], ast.Name)
+        sv = lp.body[0].targets[0].id if body_ok else None  # the threaded state: the parameter itself or a local initialised with it
+        if body_ok and sv != p:
+            inits = [n for n in own_nodes(m.node) if isinstance(n, ast.Assign) and isinstance(n.targets[0], ast.Name) and n.targets[0].id == sv and not _inside(n, lp)]
+            body_ok = len(inits) == 1 and isinstance(inits[0].value, ast.Name) and inits[0].value.id == p and inits[0].lineno < lp.lineno
         call = None
         if body_ok:
             v = lp.body[0].value
@@ -314,14 +347,20 @@ def run(repo: Repo, rep: Report, tier: str) -> None:
             call = v if isinstance(v, ast.Call) else None
         thread_ok = call is not None and isinstance(call.func, ast.Attribute) and call.func.attr == "authenticate_request" \
             and isinstance(call.func.value, ast.Name) and isinstance(lp.target, ast.Name) and call.func.value.id == lp.target.id \
-            and len(call.args) == 1 and isinstance(call.args[0], ast.Name) and call.args[0].id == p
+            and len(call.args) == 1 and isinstance(call.args[0], ast.Name) and call.args[0].id == sv
         rets = [n for n in own_nodes(m.node) if isinstance(n, ast.Return)]
-        ret_ok = len(rets) == 1 and isinstance(rets[0].value, ast.Name) and rets[0].value.id == p and not _inside(rets[0], lp)
+        ret_ok = len(rets) == 1 and isinstance(rets[0].value, ast.Name) and rets[0].value.id == sv and not _inside(rets[0], lp)
         ok4 = it_ok and body_ok and thread_ok and ret_ok
         why4 = f"iter={norm(lp.iter)} body-threads={thread_ok} returns-result-after-loop={ret_ok}"
     init = comp.methods.get("__init__")
-    store_ok = init is not None and any(isinstance(n, ast.Assign) and norm(n.targets[0]) == "self.plugins" and isinstance(n.value, ast.Name)
-                                        and init.node.args.vararg is not None and n.value.id == init.node.args.vararg.arg for n in own_nodes(init.node))  # type: ignore[attr-defined]
+    def _as_given(v: ast.AST, va: str) -> bool:
+        if isinstance(v, ast.Call) and dotted(v.func) in ("tuple", "list") and len(v.args) == 1:
+            v = v.args[0]
+        return isinstance(v, ast.Name) and v.id == va
+
+    store_ok = init is not None and init.node.args.vararg is not None and any(  # type: ignore[attr-defined]
+        isinstance(n, (ast.Assign, ast.AnnAssign)) and norm(n.targets[0] if isinstance(n, ast.Assign) else n.target) == "self.plugins" and n.value is not None
+        and _as_given(n.value, init.node.args.vararg.arg) for n in own_nodes(init.node))  # type: ignore[attr-defined]
     if ok4 and store_ok:
         rep.ok("R17.4", sub4, "each plugin receives the previous plugin's result, in constructor order; the last result is returned", m.loc())
     else:
@@ -399,19 +438,37 @@ def _plugin_rules(cls: Class, m: Function, rep: Report) -> None:
             if isinstance(t, ast.Subscript) and isinstance(t.value, ast.Name) and t.value.id == p:
                 k = const_str(t.slice)
                 v = n.value
+                def existing(e: ast.AST) -> bool:
+                    """<p>.get(k, ...) / <p>.get(k) or {} / <p>[k]"""
+                    if isinstance(e, ast.BoolOp) and isinstance(e.op, ast.Or):
+                        e = e.values[0]
+                    if isinstance(e, ast.Call) and isinstance(e.func, ast.Attribute) and e.func.attr == "get" and norm(e.func.value) == p and e.args and const_str(e.args[0]) == k:
+                        return True
+                    return isinstance(e, ast.Subscript) and norm(e.value) == p and const_str(e.slice) == k
+
+                def from_existing(e: ast.AST) -> bool:
+                    """a fresh container that starts with the existing entries, later entries (the plugin's) winning"""
+                    if isinstance(e, ast.Call) and dotted(e.func) == "dict" and e.args and existing(e.args[0]):
+                        return True
+                    if isinstance(e, ast.Call) and isinstance(e.func, ast.Attribute) and e.func.attr == "copy" and not e.args and existing(e.func.value):
+                        return True
+                    if isinstance(e, ast.Dict) and e.keys and e.keys[0] is None and existing(e.values[0]):
+                        return True
+                    if isinstance(e, ast.BinOp) and isinstance(e.op, ast.BitOr) and existing(e.left):
+                        return True
+                    return False
+
                 ok = False
                 if isinstance(v, ast.Name):
-                    defs = [d for d in own_nodes(m.node) if isinstance(d, ast.Assign) and isinstance(d.targets[0], ast.Name) and d.targets[0].id == v.id]
-                    ok = bool(defs) and all(
-                        isinstance(d.value, ast.Call) and dotted(d.value.func) == "dict" and d.value.args
-                        and isinstance(d.value.args[0], ast.Call) and isinstance(d.value.args[0].func, ast.Attribute)
-                        and d.value.args[0].func.attr == "get" and norm(d.value.args[0].func.value) == p
-                        and d.value.args[0].args and const_str(d.value.args[0].args[0]) == k
-                        for d in defs)
+                    defs = [d for d in own_nodes(m.node) if isinstance(d, (ast.Assign, ast.AnnAssign)) and isinstance(d.targets[0] if isinstance(d, ast.Assign) else d.target, ast.Name)
+                            and (d.targets[0] if isinstance(d, ast.Assign) else d.target).id == v.id and d.value is not None]
+                    ok = bool(defs) and all(from_existing(d.value) for d in defs)
+                else:
+                    ok = from_existing(v)
                 if ok:
                     rep.ok("R17.6", sub + f" extends [{k!r}]", f"starts from a copy of the existing {p}[{k!r}] (earlier layers are kept)", m.loc(n))
                 else:
-                    rep.violation("R17.6", sub + f" extends [{k!r}]", f"{m.fq}|overwrites|{k}|{norm(n)}",
+                    rep.violation("R17.6", sub + f" extends [{k!r}]", f"{m.fq}|overwrites|{k}",
                                   f"`{norm(n)}` does not start from the existing {p}[{k!r}]: headers set by defaults, the request or earlier plugins are lost", m.loc(n))
 
 
@@ -422,14 +479,16 @@ def _apikey_rules(cls: Class, rep: Report) -> None:
     want = {"header": "headers", "query": "params", "cookie": "cookies"}
     cfg = CFG(m.node)
     found: Dict[str, str] = {}
+    AL = Locals(m.node)
     top = [s for s in m.node.body if isinstance(s, ast.If)]  # type: ignore[attr-defined]
     chain = top[0] if top else None
     last_else: List[ast.stmt] = []
     while chain is not None:
         t = chain.test
         loc_val = None
-        if isinstance(t, ast.Compare) and norm(t.left) == "self.location" and isinstance(t.ops[0], ast.Eq):
-            loc_val = const_str(t.comparators[0])
+        mt = match("ANY_l == STR_v", t)
+        if mt is not None and norm(AL.inline(mt["ANY_l"])) == "self.location":
+            loc_val = mt["STR_v"]
         if loc_val is not None:
             # container key written in this branch
             keys = []
